@@ -53,7 +53,7 @@ type SimFS struct {
 	editBase int64
 }
 
-var faultKinds = []string{"eio", "enoent", "perm", "short", "readerr"}
+var faultKinds = []string{"eio", "enoent", "perm", "short", "readerr", "fstat"}
 
 func faultIdx(kind string) int {
 	for i, k := range faultKinds {
@@ -352,9 +352,15 @@ type simHandle struct {
 	dirPos  int
 	fi, ver int
 	counted bool
+	statErr bool // Stat on the open file fails (the file still opens and reads)
 }
 
-func (h *simHandle) Stat() (fs.FileInfo, error) { return h.info, nil }
+func (h *simHandle) Stat() (fs.FileInfo, error) {
+	if h.statErr {
+		return nil, &fs.PathError{Op: "stat", Path: h.info.name, Err: syscall.EIO}
+	}
+	return h.info, nil
+}
 func (h *simHandle) Close() error               { return nil }
 func (h *simHandle) Read(p []byte) (int, error) {
 	if h.dir {
@@ -435,6 +441,9 @@ func (s *SimFS) Open(name string) (fs.File, error) {
 		case "readerr":
 			h.errAt = f.Arg % (len(v.Content) + 1)
 			s.fire(f.Kind)
+		case "fstat":
+			h.statErr = true
+			s.fire(f.Kind)
 		}
 	}
 	return h, nil
@@ -444,7 +453,7 @@ func (s *SimFS) readFile(name string) ([]byte, error) {
 	f, faulted := s.enter()
 	if faulted {
 		k := f.Kind
-		if k == "short" || k == "readerr" {
+		if k == "short" || k == "readerr" || k == "fstat" {
 			k = "eio" // no partial result through ReadFileFS; degrade to a plain error
 		}
 		s.fire(k)
@@ -465,7 +474,7 @@ func (s *SimFS) statCall(name string) (fs.FileInfo, error) {
 	f, faulted := s.enter()
 	if faulted {
 		k := f.Kind
-		if k == "short" || k == "readerr" {
+		if k == "short" || k == "readerr" || k == "fstat" {
 			k = "eio"
 		}
 		s.fire(k)
@@ -478,7 +487,7 @@ func (s *SimFS) readDirCall(name string) ([]fs.DirEntry, error) {
 	f, faulted := s.enter()
 	if faulted {
 		k := f.Kind
-		if k == "short" || k == "readerr" {
+		if k == "short" || k == "readerr" || k == "fstat" {
 			k = "eio"
 		}
 		s.fire(k)
